@@ -39,8 +39,8 @@ pub fn size_forms() -> Vec<(&'static str, Size, bool)> {
         ("f2", Size::Fix(2, false), false),
         ("f3", Size::Fix(3, false), true),
         ("f17", Size::Fix(17, false), false),
-        ("f65535", Size::Fix(65535, false), false),
-        ("f65536", Size::Fix(65536, false), false),
+        ("f65535", Size::Fix(65535, false), true),
+        ("f65536", Size::Fix(65536, false), true),
         ("r0to1", Size::Range(0, Some(1), false), false),
         ("r1to4", Size::Range(1, Some(4), false), true),
         ("r0to255", Size::Range(0, Some(255), false), false),
